@@ -130,6 +130,13 @@ def run_mutation(pid, mut, repo):
         # the variant must still compile with the project's flags
         rep = analyse(pid, d)
         v = verdicts(rep)
+        # a rule that matches fewer instances than its floor makes the real check exit 2 as well (vanished anchor)
+        for r_ in rep.rules:
+            try:
+                if r_.count() < r_.floor:
+                    v['UNDECIDED'].append((r_.id, 'below-floor', '%d instance(s), floor %d' % (r_.count(), r_.floor)))
+            except Exception:                    # noqa: BLE001
+                pass
         res = {'id': mut['id'], 'kind': mut['kind'], 'violations': [(a, b) for a, b, _ in v['VIOLATION']],
                'undecided': [(a, b) for a, b, _ in v['UNDECIDED']], 'broken': rep.broken[:3]}
         if mut['kind'] == 'fault':
